@@ -43,6 +43,43 @@ def knownMapIterTypes : List (String × String) :=
 /-- Every map type enumerated in the generation path is a known one. -/
 theorem mapIterTypes_known : ∀ x ∈ Avo.Gen.mapIterTypes, x ∈ knownMapIterTypes := by decide
 
+/-- HOW the order of an enumeration can leave its loop (regenerated `Gen.mapIterShapes`: per (package, map type)
+the flags `ret-elem` first-match return, `break`, `append`, `set-outer` last-writer / running minimum, `call`,
+`closure`; loops that only do keyed writes, commutative accumulation or all-or-nothing tests have no flag).
+The inclusion on map TYPES alone tolerates a new loop over a type the package already enumerates; this one
+does so only when the new loop leaks its order in a way some loop over that type already does — each with
+the theorem that makes that way harmless:
+* `pass map[reg.ID][]reg.ID` set-outer — `mostrestricted`: running minimum with a total tie-break, `mostRestricted_perm`
+* `pass map[reg.ID]bool` append, set-outer — `NewAllocator`: ids appended, then sorted, `sortRegs_perm`
+* `pass map[reg.ID]uint16` call — `AddInterferenceSet` → `AddInterference` (order of the edge list), `allocLoop_perm`, `edgesOfE_perm`
+* `pass map[reg.Kind]*pass.Allocator` call — `SetPriority` on each allocator separately; ret-elem — `return err` of the first
+  failing kind: `allocate_kinds_perm` (all errors identified; the messages reachable through `pass.Compile` are equal)
+* `pass map[string]bool` append, set-outer — ISA names appended to `fn.ISA`, then `sort.Strings`, `requiredISA_perm`
+* `reg map[reg.ID]uint16` call, set-outer — `Update`/`DifferenceUpdate` call `Add`/`Discard` per element and or the
+  change flags, `update_perm`, `update_flag_perm`, `difference_perm`
+A first-match search (`ret-elem`) over a set of registers, a `break`, or an unsorted `append` over any other
+type is a new row. -/
+def knownMapIterShapes : List (String × String × String) :=
+  [("pass", "map[reg.ID][]reg.ID", "set-outer"),
+   ("pass", "map[reg.ID]bool", "append"),
+   ("pass", "map[reg.ID]bool", "set-outer"),
+   ("pass", "map[reg.ID]uint16", "call"),
+   ("pass", "map[reg.Kind]*pass.Allocator", "call"),
+   ("pass", "map[reg.Kind]*pass.Allocator", "ret-elem"),
+   ("pass", "map[string]bool", "append"),
+   ("pass", "map[string]bool", "set-outer"),
+   ("reg", "map[reg.ID]uint16", "call"),
+   ("reg", "map[reg.ID]uint16", "set-outer")]
+
+/-- Every way in which an enumeration order leaves a loop of the generation path is a known one. -/
+theorem mapIterShapes_known : ∀ x ∈ Avo.Gen.mapIterShapes, x ∈ knownMapIterShapes := by decide
+
+-- a first-match search over a set of register ids in `pass` (an order-leaking loop over an already known map
+-- type) is not tolerated, nor is an early exit from a loop over a mask set
+example : ("pass", "map[reg.ID]bool", "ret-elem") ∉ knownMapIterShapes := by decide
+example : ("reg", "map[reg.ID]uint16", "break") ∉ knownMapIterShapes := by decide
+example : Avo.Gen.mapIterShapes ≠ [] := by decide
+
 /-- Non-vacuity of the census itself: the generation path does enumerate maps (an extractor that
 silently finds nothing would make `mapIterTypes_known` vacuous). -/
 theorem mapIterTypes_nonempty : Avo.Gen.mapIterTypes ≠ [] ∧ Avo.Gen.mapIterSites ≠ [] := by decide
